@@ -362,6 +362,29 @@ pub fn raw_lzma(
     })
 }
 
+/// Raw LZMA decode with a *reused* decoder object: constructed with size
+/// `Some(init)`, then `reset(Some(size))`, optionally `reset(None)`, then decompress.
+pub fn raw_lzma_reused(
+    props: Props,
+    dict: u32,
+    init: u64,
+    size: Option<u64>,
+    second_reset_none: bool,
+    payload: &[u8],
+    kind: &ReaderKind,
+    io: &Io,
+) -> Run {
+    run_with(payload, kind, io, |mut r, w| {
+        let params = LzmaParams::new(lzma_props(props), dict, Some(init));
+        let mut d = LzmaDecoder::new(params, None)?;
+        d.reset(Some(size));
+        if second_reset_none {
+            d.reset(None);
+        }
+        d.decompress(&mut r, w)
+    })
+}
+
 pub fn raw_lzma2(input: &[u8], kind: &ReaderKind, io: &Io) -> Run {
     run_with(input, kind, io, |mut r, w| {
         let mut d = Lzma2Decoder::new();
